@@ -68,6 +68,9 @@ def setup_plain():
     if REPO not in sys.path:
         sys.path.insert(0, REPO)
     install_randomness()
+    import data_persistence.persistent_array  # noqa: F401
+    import data_persistence.persistent_dict  # noqa: F401
+    snapshot_repo_state()
     return scratch_root()
 
 
@@ -104,13 +107,31 @@ def setup_frontend():
 
 _SNAP = {}
 _CLASS_SNAP = {}
+_DEFAULTS_SNAP = {}
+
+
+def _snap_defaults(fn):
+    """mutable default arguments are process-wide state too"""
+    d = getattr(fn, "__defaults__", None)
+    kd = getattr(fn, "__kwdefaults__", None)
+    items = [x for x in (d or ())] + [x for x in (kd or {}).values()]
+    snap = [(x, type(x), x.copy()) for x in items if type(x) in (dict, list, set)]
+    if snap and fn not in _DEFAULTS_SNAP:
+        _DEFAULTS_SNAP[fn] = snap
+
+
+_MODCACHE = [0, []]
 
 
 def _repo_modules():
-    for name, mod in list(sys.modules.items()):
-        f = getattr(mod, "__file__", None)
-        if f and os.path.realpath(f).startswith(REPO + os.sep):
-            yield name, mod
+    if _MODCACHE[0] != len(sys.modules):
+        found = []
+        for name, mod in list(sys.modules.items()):
+            f = getattr(mod, "__file__", None)
+            if f and os.path.realpath(f).startswith(REPO + os.sep):
+                found.append((name, mod))
+        _MODCACHE[0], _MODCACHE[1] = len(sys.modules), found
+    return _MODCACHE[1]
 
 
 def snapshot_repo_state():
@@ -125,6 +146,10 @@ def snapshot_repo_state():
             # class-level containers of classes defined in this module are process-wide state as well
             if isinstance(v, type) and getattr(v, "__module__", None) == name and v not in _CLASS_SNAP:
                 _CLASS_SNAP[v] = {a: (type(x), x.copy()) for a, x in vars(v).items() if type(x) in (dict, list, set)}
+                for a, x in vars(v).items():
+                    _snap_defaults(getattr(x, "__func__", x))
+            elif getattr(v, "__module__", None) == name:
+                _snap_defaults(v)
 
 
 def restore_repo_state():
@@ -143,6 +168,11 @@ def restore_repo_state():
         for k, (tp, copy_) in containers.items():
             cur = g.get(k)
             if type(cur) is tp and cur != copy_:
+                cur.clear()
+                cur.update(copy_) if tp is not list else cur.extend(copy_)
+    for fn, snap in _DEFAULTS_SNAP.items():
+        for cur, tp, copy_ in snap:
+            if cur != copy_:
                 cur.clear()
                 cur.update(copy_) if tp is not list else cur.extend(copy_)
     for cls_, attrs in _CLASS_SNAP.items():
